@@ -325,6 +325,88 @@ theorem historyStatement_sound (ac : Bool) (ops : List Op) (h : List Cycle) (out
     · cases hh
   · cases hh
 
+/-! ### programs with rejected pushes -/
+
+/-- the statement about rejected pushes determines the outputs of the program from the outputs of
+    its accepted calls: they are `weave ops (accepted outputs)` — at every rejected `Push` the
+    type-mismatch error, no value, `Len`/`Pos` unchanged — and the accepted outputs are one per
+    accepted call -/
+theorem rejectsStatement_sound : ∀ (ops : List Op) (outs : List Out) (l p : Nat), outs.length = ops.length →
+    rejectsStatement ops outs l p = none →
+    outs = weave ops (dropRejOuts outs) l p ∧ (dropRejOuts outs).length = (dropRejects ops).length := by
+  intro ops
+  induction ops with
+  | nil =>
+    intro outs l p hlen _
+    have : outs = [] := List.eq_nil_of_length_eq_zero (by simpa using hlen)
+    subst this; exact ⟨rfl, rfl⟩
+  | cons op ops ih =>
+    intro outs l p hlen h
+    cases outs with
+    | nil => simp at hlen
+    | cons o outs =>
+      simp only [List.length_cons, Nat.add_right_cancel_iff] at hlen
+      have nonrej : op ≠ Op.reject → (if o.res = .rejected then some "type-mismatch-returned-by-an-accepted-call"
+            else rejectsStatement ops outs o.len o.pos) = none →
+          (o :: outs = weave (op :: ops) (dropRejOuts (o :: outs)) l p
+            ∧ (dropRejOuts (o :: outs)).length = (dropRejects (op :: ops)).length) := by
+        intro hop h
+        by_cases hr : o.res = .rejected
+        · rw [if_pos hr] at h; cases h
+        · rw [if_neg hr] at h
+          obtain ⟨h1, h2⟩ := ih outs o.len o.pos hlen h
+          have e1 : dropRejOuts (o :: outs) = o :: dropRejOuts outs := by
+            simp [dropRejOuts, List.filter_cons, hr]
+          have e2 : dropRejects (op :: ops) = op :: dropRejects ops := by
+            simp [dropRejects, List.filter_cons, hop]
+          rw [e1, e2]
+          refine ⟨?_, by simp [h2]⟩
+          cases op with
+          | reject => exact absurd rfl hop
+          | push e => simp only [weave]; rw [← h1]
+          | finalise => simp only [weave]; rw [← h1]
+          | pull => simp only [weave]; rw [← h1]
+          | clear => simp only [weave]; rw [← h1]
+      cases op with
+      | reject =>
+        simp only [rejectsStatement] at h
+        by_cases ho : o = ⟨.rejected, none, l, p⟩
+        · rw [if_pos ho] at h
+          obtain ⟨h1, h2⟩ := ih outs l p hlen h
+          subst ho
+          have e1 : dropRejOuts ((⟨.rejected, none, l, p⟩ : Out) :: outs) = dropRejOuts outs := by
+            simp [dropRejOuts, List.filter_cons]
+          have e2 : dropRejects (Op.reject :: ops) = dropRejects ops := by
+            simp [dropRejects, List.filter_cons]
+          rw [e1, e2]
+          refine ⟨?_, h2⟩
+          simp only [weave]; rw [← h1]
+        · rw [if_neg ho] at h; cases h
+      | push e => exact nonrej (by simp) (by simpa [rejectsStatement] using h)
+      | finalise => exact nonrej (by simp) (by simpa [rejectsStatement] using h)
+      | pull => exact nonrej (by simp) (by simpa [rejectsStatement] using h)
+      | clear => exact nonrej (by simp) (by simpa [rejectsStatement] using h)
+
+/-- **what the drivers evaluate on a program with rejected pushes**: if `programStatement` accepts
+    the implementation's outputs of a program whose accepted calls `historyOf` recognises as the
+    well-formed history `h`, then the outputs of the accepted calls satisfy `HistorySpec ac h` and
+    every rejected `Push` is a no-op: the outputs are `weave ops (accepted outputs) 0 0`. -/
+theorem programStatement_sound (ac : Bool) (ops : List Op) (h : List Cycle) (outs : List Out)
+    (hh : historyOf ac (dropRejects ops) = some h) (hs : programStatement ac h ops outs = none) :
+    wellFormed ac h = true ∧ histOps h = dropRejects ops ∧ HistorySpec ac h (dropRejOuts outs)
+      ∧ outs = weave ops (dropRejOuts outs) 0 0 := by
+  unfold programStatement at hs
+  split at hs
+  · cases hs
+  · rename_i hl
+    have hl : outs.length = ops.length := Decidable.not_not.mp hl
+    cases hrs : rejectsStatement ops outs 0 0 with
+    | some why => rw [hrs] at hs; cases hs
+    | none =>
+      rw [hrs] at hs
+      obtain ⟨h1, h2, h3⟩ := historyStatement_sound ac (dropRejects ops) h (dropRejOuts outs) hh hs
+      exact ⟨h1, h2, h3, (rejectsStatement_sound ops outs 0 0 hl hrs).1⟩
+
 /-- non-vacuity: the checker accepts the outputs of the model on the witness history of F13 -/
 example : checkHistory false [⟨[⟨3,0⟩, ⟨1,0⟩, ⟨2,0⟩], 4, true⟩, ⟨[⟨9,0⟩, ⟨8,0⟩, ⟨7,0⟩, ⟨6,0⟩, ⟨5,0⟩], 6, true⟩] 1
     (run (init 4 false) (histOps [⟨[⟨3,0⟩, ⟨1,0⟩, ⟨2,0⟩], 4, true⟩, ⟨[⟨9,0⟩, ⟨8,0⟩, ⟨7,0⟩, ⟨6,0⟩, ⟨5,0⟩], 6, true⟩])).2
